@@ -138,7 +138,7 @@ def run(ctx):
                 ctx.disagree("model-vs-code:v%s:as_json" % v, s, mo[:400], io_[:400])
     for ver, a, pfx, s in cases:
         ctx.nontrivial((ver, s))
-        o, e = obs.construct(ver, s)
+        o, e = obs.construct(ver, s, warm=True)
         if o is None:
             ctx.violation("v%s:valid-vector-rejected" % ver, "accepted vector rejected", s, "accepted", e,
                           replay={"ver": ver, "s": s, "assignment": a, "prefix": pfx})
@@ -148,7 +148,7 @@ def run(ctx):
 
 def replay(data):
     r = data["replay"]
-    o, e = obs.construct(r["ver"], r["s"])
+    o, e = obs.construct(r["ver"], r["s"], warm=True)
     if o is None:
         return False, "rejected %s" % e
 
